@@ -357,7 +357,10 @@ def _one_directive(src, toks, s, e, kwi, kw, body_open, start, end, path, name, 
   elif name in ('replace', 'replace*'):
     spec, _, why = arg.partition(' ## ')
     # ` ==>> ` is the separator when the old text itself contains ` => ` (match arms)
-    old, sep, new = spec.partition(' ==>> ') if ' ==>> ' in spec else spec.partition(' => ')
+    if spec.rstrip().endswith(' ==>>'):
+      old, sep, new = spec.rstrip()[:-5], ' ==>> ', ''   # deletion
+    else:
+      old, sep, new = spec.partition(' ==>> ') if ' ==>> ' in spec else spec.partition(' => ')
     if not sep:
       raise ExtractError('bad @replace %r' % arg)
     rule = why.strip().split(':')[0].strip() if why.strip() else ''
